@@ -79,8 +79,7 @@ func one(c *Ctx, src []byte, lineMode bool, toModel bool, st *stats) {
 		}()
 	}
 	if toModel {
-		toks, convs := LexTokens(src, lineMode)
-		c.Case(fmt.Sprintf("FRONT %s %s %s", mode, toks, convs), fr.Obs)
+		c.Case(fmt.Sprintf("FRONT %s %s %s", mode, Hx(src), Convs(src)), fr.Obs)
 	}
 }
 
